@@ -602,6 +602,14 @@ def _norm(c):
   return c
 
 
+class RAbs:
+  """|p| for a non-constant polynomial p (ring algebra): supports comparison with constants only"""
+  __slots__ = ('p',)
+
+  def __init__(self, p):
+    self.p = p
+
+
 class RingAlg(Alg):
   """Q[x1..xn] modulo sphere relations  v^2 = rhs(other variables).  With `eager` the relations are
   applied after every product, so every value is in normal form and equality is structural."""
@@ -644,6 +652,8 @@ class RingAlg(Alg):
   def P(self, c):
     if isinstance(c, Poly):
       return c
+    if isinstance(c, RAbs):
+      raise Unsupported('arithmetic on |p| of a non-constant polynomial (only comparisons of |p| with a constant are decided, from the hints on p)')
     if isinstance(c, bool):
       c = int(c)
     if isinstance(c, float):
@@ -903,7 +913,29 @@ class RingAlg(Alg):
     self.sqrt_decl[frozenset(a.t.items())] = r
     self.hints_used.append(('sqrt((%s)^2) = %s' % (self.show(r, 4), self.show(r, 4)), True, reason))
 
+  def _abs(self, a):
+    a = self.normal(a)
+    if isinstance(a, Ratio):
+      raise Unsupported('|.| of a rational function')
+    return RAbs(a)
+
   def _cmp(self, op, a, b):
+    if isinstance(a, RAbs) or isinstance(b, RAbs):
+      # |p| op c  is the conjunction / disjunction of the two one-sided predicates on p (each decided by its own hint)
+      if isinstance(b, RAbs):
+        a, b = b, a
+        op = {'lt': 'gt', 'gt': 'lt', 'le': 'ge', 'ge': 'le', 'eq': 'eq', 'ne': 'ne'}[op]
+      if isinstance(b, RAbs):
+        raise Unsupported('comparison of two absolute values')
+      if op == 'lt':
+        return self.and_(self.cmp('lt', self._neg(self.P(b)), a.p), self.cmp('lt', a.p, b))
+      if op == 'le':
+        return self.and_(self.cmp('le', self._neg(self.P(b)), a.p), self.cmp('le', a.p, b))
+      if op == 'gt':
+        return self.or_(self.cmp('gt', a.p, b), self.cmp('lt', a.p, self._neg(self.P(b))))
+      if op == 'ge':
+        return self.or_(self.cmp('ge', a.p, b), self.cmp('le', a.p, self._neg(self.P(b))))
+      raise Unsupported('equality with an absolute value')
     d = self.normal(self._sub(a, b))
     if isinstance(d, Ratio):
       if op in ('eq', 'ne'):
